@@ -1687,6 +1687,35 @@ def translate_fn(src, header_regex, paths, funcs, subst, structs=None, resub=(),
     return indent(apply_subst(term, subst, resub))
 
 
+def translate_expr_after(src, header_regex, paths, funcs, subst, structs=None, resub=(), opts=None):
+    """the pure expression that follows the text matched by `header_regex` (e.g. the body of a closure bound by
+    `let cmp = |q, r| <expr>;`), up to the `;` or `,` that ends it at bracket depth 0"""
+    m = re.search(header_regex, src, flags=re.S)
+    if not m:
+        raise TranslateError("expression not found: /%s/" % header_regex)
+    depth, j = 0, m.end()
+    while j < len(src):
+        c = src[j]
+        if c in "({[":
+            depth += 1
+        elif c in ")}]":
+            depth -= 1
+            if depth < 0:
+                break
+        elif c in ";," and depth == 0:
+            break
+        j += 1
+    else:
+        raise TranslateError("unterminated expression after /%s/" % header_regex)
+    o = dict(opts or {})
+    o.setdefault("strict", True)
+    p = Parser(tokenize(src[m.end():j]), paths, funcs, structs, o)
+    term = p.expr(True)
+    if p.peek()[0] != "eof":
+        raise TranslateError("trailing tokens after the expression: %s" % (p.peek(),))
+    return indent(apply_subst(term, subst, resub))
+
+
 def array_literal(src, header_regex, paths, funcs, structs=None):
     """a function whose body is one fixed-length array literal: the list of its element terms (before substitutions)"""
     body = fn_body(src, header_regex)
